@@ -31,6 +31,8 @@ def tree_direct(ctx):
                        extra=["-fsanitize=address,undefined", "-fno-sanitize-recover=undefined"])
     cfg = "MC_Tree_quick.cfg" if ctx.quick else "MC_Tree_thorough.cfg"
     r = ctx.tlc_must_pass("Tree", cfg, workers=16, coverage=False, timeout=1500)
+    # the new-flag property needs the full history in the state (no VIEW): separate small design-level run
+    ctx.tlc_must_pass("Tree", "MC_Tree_hist.cfg", workers=16, timeout=900, collect=None)
     cases = [json.loads(v) for v in r.vcases]
     if len(cases) != r.distinct:
         raise vlib.MachineryError("expected one VCASE per distinct state: %d vs %d" % (len(cases), r.distinct))
